@@ -28,7 +28,14 @@ import (
 	"wsim/instr"
 )
 
-const verifDir = "/verif"
+// verifDir is the root of the verification tree (VERIF_HOME, default /verif;
+// background runs started with `vp run` work from a snapshot elsewhere).
+var verifDir = func() string {
+	if d := os.Getenv("VERIF_HOME"); d != "" {
+		return d
+	}
+	return "/verif"
+}()
 
 type tierCfg struct {
 	runs   int     // total runs over all workers
